@@ -62,9 +62,13 @@ impl<const BITS: usize, const LIMBS: usize> Uint<BITS, LIMBS> {
         // Adjust result to get the exact value. At most one of these should happen, but
         // we loop regardless.
         loop {
+            #[cfg(recmo_uint_verif)]
+            crate::verif_hooks::step("log");
             if let Some(value) = base.checked_pow(result) {
                 if value > self {
                     assert!(!result.is_zero());
+                    #[cfg(recmo_uint_verif)]
+                    crate::verif_hooks::hit(crate::verif_hooks::C::LOG_DEC);
                     result -= Self::ONE;
                     continue;
                 }
@@ -75,8 +79,12 @@ impl<const BITS: usize, const LIMBS: usize> Uint<BITS, LIMBS> {
             break;
         }
         while let Some(trial) = result.checked_add(Self::ONE) {
+            #[cfg(recmo_uint_verif)]
+            crate::verif_hooks::step("log");
             if let Some(value) = base.checked_pow(trial) {
                 if value <= self {
+                    #[cfg(recmo_uint_verif)]
+                    crate::verif_hooks::hit(crate::verif_hooks::C::LOG_INC);
                     result = trial;
                     continue;
                 }
